@@ -168,10 +168,17 @@ class UnitDomain(EffectDomain):
                 outs.append((NONE, store if d is False else self.with_pc(store, T("has_conversion", u), False)))
             return outs
         if name == "compound::apply_conversion" and "compound::apply_conversion" in self.opaque:
-            power, inverse, ratio_ref, conv, sole = args[0], args[1], args[2], args[3], args[4]
+            ro = ac_roles(self.facts)
+            if ro is None:
+                raise core.Undecided("the roles of apply_conversion's parameters could not be determined")
+            ratio_ref = args[ro["ratio"]]
+            v_pow, v_conv, v_sole = vals[ro["power"]], vals[ro["conv"]], vals[ro["sole"]]
+            d = vals[ro["direction"]]
+            # the direction argument in canonical form: the `inverse` flag it stands for
+            v_inv = Const(ro["dirmap"][repr(d)]) if repr(d) in ro["dirmap"] else d
             old = rat_value(it.read_ref(store, ratio_ref))
-            new = rational(T("conv", old, vals[0], vals[1], vals[3], vals[4]))
-            st = self.with_log(it.write_ref(store, ratio_ref, new), ("conv", vals[0], vals[1], vals[3], vals[4]))
+            new = rational(T("conv", old, v_pow, v_inv, v_conv, v_sole))
+            st = self.with_log(it.write_ref(store, ratio_ref, new), ("conv", v_pow, v_inv, v_conv, v_sole))
             return [(ok(UNIT), st), (compound_err(), self.with_log(store, ("fail", "conv")))]
         if name.startswith("core::num::<impl i32>::checked_") and len(vals) == 2:
             op = {"checked_mul": "i*", "checked_add": "i+", "checked_sub": "i-"}.get(name.split("::")[-1])
@@ -198,6 +205,98 @@ def field_named(facts, adt_path, value, field):
 
 
 # ---- apply_conversion ---------------------------------------------------------------------------------------
+def _finite_values(facts, ty):
+    """The values of a finite parameter type: bool, or a crate-local enum of unit variants."""
+    if ty == "bool":
+        return [Const(False), Const(True)]
+    adt = facts.adt(ty)
+    if adt is not None and adt["is_enum"] and all(not v["fields"] for v in adt["variants"]) and 2 <= len(adt["variants"]) <= 4:
+        return [Agg("adt", ty, i, v["name"], ()) for i, v in enumerate(adt["variants"])]
+    return None
+
+
+def ac_roles(facts):
+    """Roles of apply_conversion's parameters, found by type and by behaviour (not by position or name):
+    power (the i32), ratio (&mut Rational), conv (unit::Conversion), and among the finite parameters (bool or small enum)
+    `direction` = the one a Factor conversion's result depends on, `sole` = the other.  Each value of the direction
+    parameter is mapped to the canonical 'inverse' flag: False where x becomes x * numer/denom (towards the base units),
+    True where it becomes x * denom/numer.  -> dict or None."""
+    cached = facts.__dict__.get("_ac_roles", "?")
+    if cached != "?":
+        return cached
+    facts._ac_roles = None
+    body = facts.fn("compound::apply_conversion")
+    if body is None:
+        return None
+    from ..absint import evalterm
+    from fractions import Fraction
+    tys = [body.local_ty(i) for i in range(1, body.arg_count + 1)]
+    roles = {"tys": tys}
+    fin = []
+    for i, ty in enumerate(tys):
+        if ty == "i32" and "power" not in roles:
+            roles["power"] = i
+        elif ty.startswith("&mut rational::Rational"):
+            roles["ratio"] = i
+        elif ty == "unit::Conversion":
+            roles["conv"] = i
+        elif _finite_values(facts, ty) is not None:
+            fin.append(i)
+    if not all(k in roles for k in ("power", "ratio", "conv")) or len(fin) != 2:
+        return None
+    cadt = facts.adt("unit::Conversion")
+    vidx = {v["name"]: i for i, v in enumerate(cadt["variants"])} if cadt else {}
+    frac = Agg("adt", "unit::ConversionFraction", 0, "ConversionFraction", (Sym("numer"), Sym("denom")))
+    cv = Agg("adt", "unit::Conversion", vidx.get("Factor", 1), "Factor", (frac,))
+    env = {"x": Fraction(3), "numer": Fraction(5), "denom": Fraction(7)}
+
+    def factor_result(assign):
+        dom = UnitDomain(facts)
+        it = core.Interp(facts, dom, budget=50000)
+        args = []
+        for i, ty in enumerate(tys):
+            if i == roles["power"]:
+                args.append(Const(1))
+            elif i == roles["ratio"]:
+                args.append(Ref(0, 0))
+            elif i == roles["conv"]:
+                args.append(cv)
+            else:
+                args.append(assign.get(i, TOP))
+        outs = it.run(body, args, {(0, 0): rational("x")})
+        vals = set()
+        for o in outs:
+            if o.kind == "ret" and isinstance(o.value, Agg) and o.value.vi == 0:
+                vals.add(evalterm.ev(rat_value(it.read_ref(o.store, Ref(0, 0))), env))
+        return vals
+
+    try:
+        table = {}
+        for a in fin:
+            b = [x for x in fin if x != a][0]
+            res = {}
+            for va in _finite_values(facts, tys[a]):
+                r = set()
+                for vb in _finite_values(facts, tys[b]):
+                    r |= factor_result({a: va, b: vb})
+                res[repr(va)] = (va, r)
+            table[a] = res
+    except (core.Undecided, evalterm.Unrecognised, ZeroDivisionError):
+        return None
+    to_base, from_base = Fraction(15, 7), Fraction(21, 5)
+    for a in fin:
+        res = table[a]
+        if all(len(r) == 1 for _, r in res.values()) and {next(iter(r)) for _, r in res.values()} == {to_base, from_base}:
+            roles["direction"] = a
+            roles["sole"] = [x for x in fin if x != a][0]
+            roles["dirmap"] = {k: (next(iter(r)) == from_base) for k, (v, r) in res.items()}
+            roles["dirvals"] = {(next(iter(r)) == from_base): v for k, (v, r) in res.items()}
+    if "direction" not in roles or tys[roles["sole"]] != "bool":
+        return None
+    facts._ac_roles = roles
+    return roles
+
+
 def summarize_apply_conversion(facts):
     """For each conversion kind x inverse x sole: outcomes [(kind, pc, result term or None)]."""
     body = facts.fn("compound::apply_conversion")
@@ -213,8 +312,11 @@ def summarize_apply_conversion(facts):
     cadt = facts.adt("unit::Conversion")
     vidx = {v["name"]: i for i, v in enumerate(cadt["variants"])} if cadt else {}
     out = {}
-    # which parameters are there?  (power, inverse, ratio, conversion, sole) by type
-    tys = [body.local_ty(i) for i in range(1, body.arg_count + 1)]
+    # which parameter is which: by type and by behaviour (ac_roles)
+    roles = ac_roles(facts)
+    if roles is None:
+        return None
+    tys = roles["tys"]
     for kind, cv in convs.items():
         cv = Agg("adt", "unit::Conversion", vidx.get(kind, cv.vi), kind, cv.fields)
         for inverse in (False, True):
@@ -223,15 +325,16 @@ def summarize_apply_conversion(facts):
                 it = core.Interp(facts, dom, budget=50000)
                 store = {(0, 0): rational("x")}
                 args = []
-                bools = [Const(inverse), Const(sole)]
-                for ty in tys:
-                    if ty == "i32":
+                for i, ty in enumerate(tys):
+                    if i == roles["power"]:
                         args.append(Sym("power"))
-                    elif ty == "bool":
-                        args.append(bools.pop(0) if bools else TOP)
-                    elif ty.startswith("&mut rational::Rational"):
+                    elif i == roles["direction"]:
+                        args.append(roles["dirvals"][inverse])
+                    elif i == roles["sole"]:
+                        args.append(Const(sole))
+                    elif i == roles["ratio"]:
                         args.append(Ref(0, 0))
-                    elif ty == "unit::Conversion":
+                    elif i == roles["conv"]:
                         args.append(cv)
                     else:
                         args.append(TOP)
